@@ -10,15 +10,20 @@ Definition Reads (t : list byte) (tr : tree) : Prop :=
   forall s p, Ready p s -> nomark (stack p) = true -> Lands (push_val p tr) (run s t).
 
 Lemma nomark_push_val p t : nomark (stack (push_val p t)) = true.
-Proof. unfold push_val. destruct (stack p); reflexivity. Qed.
+Proof. unfold push_val. destruct (wrap_marks (stack p) t) as [st t']. destruct st; reflexivity. Qed.
+(* on a stack without a waiting reader macro a completed object is just pushed *)
+Lemma wrap_marks_nomark st t : nomark st = true -> wrap_marks st t = (st, t).
+Proof. destruct st as [|[k|m|x] st]; intros H; try reflexivity. discriminate H. Qed.
+Lemma push_val_nomark p t : nomark (stack p) = true ->
+  push_val p t = match stack p with [] => {| stack := []; code := t :: code p |} | st => {| stack := IVal t :: st; code := code p |} end.
+Proof. intros H. unfold push_val. rewrite (wrap_marks_nomark _ _ H). destruct (stack p); reflexivity. Qed.
 
 (* ---- tokens ---- *)
 Definition tok_tree (w : list byte) : tree :=
   if is_t w then TLeaf LTrue else if is_nil_tok w then TLeaf LNil else TLeaf (LTok w).
 Lemma push_token_nomark p w : nomark (stack p) = true -> push_token p w = push_val p (tok_tree w).
 Proof.
-  intros H. unfold push_token, tok_tree. destruct (is_t w); [reflexivity|]. destruct (is_nil_tok w); [reflexivity|].
-  destruct (stack p) as [|[k|m|t] st] eqn:E; try reflexivity. discriminate H.
+  intros H. unfold push_token, tok_tree. destruct (is_t w); [reflexivity|]. destruct (is_nil_tok w); reflexivity.
 Qed.
 Lemma Reads_token c0 cs : token_first c0 = true -> forallb token_byte cs = true -> Reads (c0 :: cs) (tok_tree (c0 :: cs)).
 Proof.
@@ -148,16 +153,16 @@ Proof.
   induction trs as [|t trs IH] using rev_ind; intros acc; [reflexivity|].
   rewrite vals_snoc. cbn [app pop_to_open]. rewrite IH, <- app_assoc. reflexivity.
 Qed.
-Lemma push_val_vals acc k st cd t :
-  push_val {| stack := vals acc ++ IOpen k :: st; code := cd |} t = {| stack := vals (acc ++ [t]) ++ IOpen k :: st; code := cd |}.
-Proof.
-  rewrite vals_snoc. unfold push_val. cbn [stack code].
-  destruct (vals acc ++ IOpen k :: st) eqn:E; [destruct (vals acc); discriminate E|].
-  cbn [app]. rewrite E. reflexivity.
-Qed.
 Lemma nomark_vals acc k st : nomark (vals acc ++ IOpen k :: st) = true.
 Proof.
   destruct acc as [|t acc] using rev_ind; [reflexivity|]. rewrite vals_snoc. reflexivity.
+Qed.
+Lemma push_val_vals acc k st cd t :
+  push_val {| stack := vals acc ++ IOpen k :: st; code := cd |} t = {| stack := vals (acc ++ [t]) ++ IOpen k :: st; code := cd |}.
+Proof.
+  rewrite vals_snoc. rewrite push_val_nomark by apply nomark_vals. cbn [stack code].
+  destruct (vals acc ++ IOpen k :: st) eqn:E; [destruct (vals acc); discriminate E|].
+  cbn [app]. rewrite E. reflexivity.
 Qed.
 
 Lemma run_seq ts body : Seq ts body -> forall trs, Forall2 Reads ts trs ->
@@ -180,8 +185,7 @@ Lemma close_vals k st cd trs : nomark st = true ->
   close_list {| stack := vals trs ++ IOpen k :: st; code := cd |} =
   inl (push_val {| stack := st; code := cd |} (match k with KList => dotted trs | _ => TNode k trs end)).
 Proof.
-  intros Hnm. unfold close_list. cbn [stack code]. rewrite pop_vals, app_nil_r.
-  destruct k; unfold push_val; cbn [stack code]; destruct st as [|[k'|m|t] st]; try reflexivity; discriminate Hnm.
+  intros Hnm. unfold close_list. cbn [stack code]. rewrite pop_vals, app_nil_r. reflexivity.
 Qed.
 
 Lemma Reads_list ts body trs : Seq ts body -> Forall2 Reads ts trs -> Reads ([40] ++ body ++ [41]) (dotted trs).
